@@ -86,3 +86,214 @@ def resolve_renames(docs, known):
             if n.get("k") == "ref" and n.get("dk") == "fn" and n.get("n") in mapping:
                 n["n"] = mapping[n["n"]]
     return sorted(out)
+
+
+SCALARS = {"int", "unsigned int", "unsigned", "long", "unsigned long", "long int", "long unsigned int", "size_t", "ssize_t", "short", "unsigned short",
+           "char", "unsigned char", "uint8_t", "uint16_t", "uint32_t", "uint64_t", "int8_t", "int16_t", "int32_t", "int64_t", "bool", "_Bool",
+           "double", "float", "time_t", "uid_t", "gid_t", "pid_t", "mode_t", "off_t", "ev_tstamp"}
+
+
+def _strip_casts(x):
+    while isinstance(x, dict) and x.get("k") == "cast":
+        x = x["e"]
+    return x
+
+
+def byvalue_scalars(docs):
+    """A static function that takes `const <scalar> *p`, only ever reads `*p`, and is always called with `&x` is the same function
+    taking the scalar by value: both spellings are brought to the by-value form (in the function and at every call), so that a rule
+    written for one of them reads the other.  Returns [(function, parameter)]."""
+    out = []
+    fns = {}
+    for d in docs:
+        for f in d["functions"]:
+            if f.get("cfg"):
+                fns.setdefault(f["name"], []).append(f)
+    for name, defs in fns.items():
+        f = defs[0]
+        if not f.get("static"):
+            continue
+        for pi, p in enumerate(f.get("params", [])):
+            t = " ".join((p.get("t") or "").replace("__restrict", "").replace("restrict", "").split())
+            if not (t.startswith("const ") and t.endswith("*")):
+                continue
+            pointee = t[len("const "):-1].strip()
+            if pointee not in SCALARS:
+                continue
+            pid = p.get("id")
+            ok = True
+            # every use of p in every definition is `*p`
+            for g in defs:
+                for blk in g["cfg"]["blocks"]:
+                    roots = [e["x"] for e in blk["elems"]] + [blk.get("term")]
+                    stack = [(r, None) for r in roots if isinstance(r, (dict, list))]
+                    while stack and ok:
+                        n, parent = stack.pop()
+                        if isinstance(n, list):
+                            stack.extend((c, parent) for c in n)
+                            continue
+                        if not isinstance(n, dict):
+                            continue
+                        if n.get("k") == "ref" and n.get("id") == pid and n.get("dk") == "param":
+                            q = parent
+                            if not (isinstance(q, dict) and q.get("k") == "un" and q.get("op") == "*"):
+                                ok = False
+                            continue
+                        par = n if n.get("k") != "cast" else parent     # look through casts when judging the parent
+                        for v in n.values():
+                            if isinstance(v, (dict, list)):
+                                stack.append((v, par))
+            if not ok:
+                continue
+            # every call passes &x
+            sites = []
+            for d in docs:
+                for g in d["functions"]:
+                    if not g.get("cfg"):
+                        continue
+                    for n in _walk_all(g["cfg"]):
+                        if n.get("k") == "call" and n.get("fn") == name and len(n.get("a", [])) > pi:
+                            a = _strip_casts(n["a"][pi])
+                            if isinstance(a, dict) and a.get("k") == "un" and a.get("op") == "&":
+                                sites.append(n)
+                            else:
+                                ok = False
+            if not ok or not sites:
+                continue
+            for g in defs:
+                for q in g["params"]:
+                    if q.get("id") == pid:
+                        q["t"] = pointee
+                for n in _walk_all(g["cfg"]):
+                    for key, v in list(n.items()):
+                        if isinstance(v, dict):
+                            w = _strip_casts(v)
+                            if w.get("k") == "un" and w.get("op") == "*":
+                                r = _strip_casts(w["e"])
+                                if isinstance(r, dict) and r.get("k") == "ref" and r.get("id") == pid:
+                                    n[key] = dict(r, t=pointee)
+                        elif isinstance(v, list):
+                            for ix, it in enumerate(v):
+                                if isinstance(it, dict):
+                                    w = _strip_casts(it)
+                                    if w.get("k") == "un" and w.get("op") == "*":
+                                        r = _strip_casts(w["e"])
+                                        if isinstance(r, dict) and r.get("k") == "ref" and r.get("id") == pid:
+                                            v[ix] = dict(r, t=pointee)
+            for n in sites:
+                n["a"][pi] = _strip_casts(n["a"][pi])["e"]
+            out.append((name, p.get("n")))
+    return out
+
+
+def _nt(t):
+    return " ".join((t or "").replace("__restrict", "").replace("restrict", "").split())
+
+
+def restore_param_conventions(docs, known):
+    """A known function whose parameter was `T p` when the rules were confirmed and is `const T *p` now (or the other way round), with
+    every use and every call adjusted accordingly, is the same function: the parameter is brought back to the recorded convention
+    (`p->f` <-> `p.f`, `*p` <-> `p`, `&x` <-> `x` at the calls).  Anything that is not a pure change of passing convention (the pointer
+    is stored, compared, handed on; the value is written) is left alone.  Returns [(function, parameter, 'by value'|'by pointer')]."""
+    sigs = known_signatures()
+    if sigs is None or known is None:
+        return []
+    out = []
+    fns = {}
+    for d in docs:
+        for f in d["functions"]:
+            if f.get("cfg"):
+                fns.setdefault((f["name"], f["file"]), []).append(f)
+    for (name, file), defs in fns.items():
+        ent = [e for e in sigs.get(name, []) if e["file"] == file]
+        if not ent or name not in known:
+            continue
+        kp = ent[0]["params"]
+        f = defs[0]
+        if len(kp) != len(f.get("params", [])):
+            continue
+        for pi, p in enumerate(f["params"]):
+            K, C = _nt(kp[pi]), _nt(p.get("t"))
+            if K == C:
+                continue
+            if C in ("const %s *" % K, "const %s *const" % K):
+                to_value = True
+            elif K in ("const %s *" % C, "const %s *const" % C):
+                to_value = False
+            else:
+                continue
+            pid = p.get("id")
+            # collect uses with their parents
+            ok = True
+            edits = []      # (container, key/index, replacement)
+            for g in defs:
+                for blk in g["cfg"]["blocks"]:
+                    roots = [("elems", blk["elems"])] + ([("term", blk)] if isinstance(blk.get("term"), dict) else [])
+                    stack = []
+                    for e in blk["elems"]:
+                        stack.append((e, "x"))
+                    if isinstance(blk.get("term"), dict):
+                        stack.append((blk, "term"))
+                    while stack and ok:
+                        cont, key = stack.pop()
+                        n = cont[key]
+                        if isinstance(n, list):
+                            for ix in range(len(n)):
+                                stack.append((n, ix))
+                            continue
+                        if not isinstance(n, dict):
+                            continue
+                        core = _strip_casts(n)
+                        k = core.get("k") if isinstance(core, dict) else None
+                        if to_value:
+                            if k == "mem" and core.get("arrow") and isinstance(_strip_casts(core["b"]), dict) and _strip_casts(core["b"]).get("k") == "ref" \
+                                    and _strip_casts(core["b"]).get("id") == pid:
+                                edits.append((cont, key, dict(core, arrow=False, b=dict(_strip_casts(core["b"]), t=K))))
+                                continue
+                            if k == "un" and core.get("op") == "*" and isinstance(_strip_casts(core["e"]), dict) and _strip_casts(core["e"]).get("k") == "ref" \
+                                    and _strip_casts(core["e"]).get("id") == pid:
+                                edits.append((cont, key, dict(_strip_casts(core["e"]), t=K)))
+                                continue
+                            if k == "ref" and core.get("id") == pid and core.get("dk") == "param":
+                                ok = False      # the pointer itself is used
+                                continue
+                        else:
+                            if k == "mem" and not core.get("arrow") and isinstance(_strip_casts(core["b"]), dict) and _strip_casts(core["b"]).get("k") == "ref" \
+                                    and _strip_casts(core["b"]).get("id") == pid:
+                                edits.append((cont, key, dict(core, arrow=True, b=dict(_strip_casts(core["b"]), t=K))))
+                                continue
+                            if k == "ref" and core.get("id") == pid and core.get("dk") == "param":
+                                edits.append((cont, key, {"k": "un", "op": "*", "e": dict(core, t=K), "t": C}))
+                                continue
+                        for kk, v in n.items():
+                            if isinstance(v, (dict, list)):
+                                stack.append((n, kk))
+            if not ok:
+                continue
+            sites = []
+            for d in docs:
+                for g in d["functions"]:
+                    if not g.get("cfg"):
+                        continue
+                    for n in _walk_all(g["cfg"]):
+                        if n.get("k") == "call" and n.get("fn") == name and len(n.get("a", [])) > pi:
+                            a = _strip_casts(n["a"][pi])
+                            if to_value:
+                                if isinstance(a, dict) and a.get("k") == "un" and a.get("op") == "&":
+                                    sites.append((n, a["e"]))
+                                else:
+                                    ok = False
+                            else:
+                                sites.append((n, {"k": "un", "op": "&", "e": n["a"][pi], "t": K}))
+            if not ok or not sites:
+                continue
+            for cont, key, repl in edits:
+                cont[key] = repl
+            for g in defs:
+                for q in g["params"]:
+                    if q.get("id") == pid:
+                        q["t"] = kp[pi]
+            for n, na in sites:
+                n["a"][pi] = na
+            out.append((name, p.get("n"), "by value" if to_value else "by pointer"))
+    return out
